@@ -229,7 +229,19 @@ func runNILROOT(c *Ctx) {
 		}
 		callers := c.P.Callers[r.fn]
 		if len(callers) == 0 && !exported {
-			c.Undecided(r.fn, P.Pos(r.fn.Pos()), "requires non-nil root", "no static caller found for "+name)
+			// a one-call wrapper (`loadRoot(ctx)` = `m.load(ctx, m.root)`) whose every call the loader wrote back at the call
+			// site is dead in the program as analysed: its requirement is judged where it was written back
+			written := false
+			for _, l := range ir.InlineLog {
+				if strings.HasPrefix(l, r.fn.Name()+" in ") {
+					written = true
+				}
+			}
+			if written {
+				c.OK(P.Pos(r.fn.Pos()), name+" requires a non-nil root", "a thin wrapper written back at each of its call sites by the loader: judged there", false)
+			} else {
+				c.Undecided(r.fn, P.Pos(r.fn.Pos()), "requires non-nil root", "no static caller found for "+name)
+			}
 		}
 		for _, cs := range callers {
 			caller := cs.Parent()
